@@ -48,6 +48,7 @@ func NewReflector[S, A any](t hseq.Type[S]) Reflector[A] {
 	fv := reflect.TypeOf(new(A)).Elem()
 
 	if ft.String() == fv.String() && ft.AssignableTo(fv) {
+		assertContainer[S]()
 		return &lens[S, A]{t}
 	}
 
